@@ -14,4 +14,6 @@ sub('harness/props/c01.py','MODULES = [','MODULES = ["LbfgsbVerif.Props.C01Curv"
 sub('harness/props/c01.py','THEOREMS = [','THEOREMS = ["Lbfgsb.C01.complete_iteration_descent_curv", "Lbfgsb.C01.descent_from_memory_invariant", "Lbfgsb.C01.kernel_minv_invertible", ')
 sub('harness/manifest_gen.py', "the product with the middle matrix through the code's triangular factors (bmv) is compared",
     "kernel_matrix_is_bfgs (Props/C10Kernel, via Proofs/CompactBridge + CompactKernel): the very lists the model's kernels are given (buildW, buildMinv — columns [Y, theta S], middle matrix [[-D, L^T],[L, theta S^T S]]) are the block form of the compact representation, which is the bordered form of the Byrd-Nocedal-Schnabel proof up to the order of the columns (an explicit bijection of the index types), so with Mm any left inverse of the matrix of buildMinv, theta I - W Mm W^T IS the dense BFGS recursion of the stored pairs and is symmetric positive definite when every pair has s != 0, s.y > 0 and theta > 0; the product with the middle matrix through the code's triangular factors (bmv) is compared")
+sub('harness/props/c08.py','MODULES = [','MODULES = ["LbfgsbVerif.Props.C01Curv", ')
+sub('harness/props/c08.py','THEOREMS = [','THEOREMS = ["Lbfgsb.C01.gcp_first_local_min_curv", "Lbfgsb.C01.kernel_minCtx", ')
 print("ok")
